@@ -79,9 +79,14 @@ Theorem C05_cancel_handlers : forall (c : cfg) s, overall c s = OCancel ->
   handlers_for c s = filter (hon c) [HCancel; HExit].
 Proof. exact cancel_handlers. Qed.
 Print Assumptions C05_cancel_handlers.
-(* "Reported canceled" = stop flag set and not every step finished/skipped (C04_canceled_iff).  That a stopped run whose
-   steps were cut short is never reported finished is FALSE of the pinned code (F5c, C04_finished_without_running_refuted);
-   the partial statement is C04_finished_means_ran_partial (clean stops). *)
+(* "Reported canceled" = stop flag set and not every step finished/skipped (C04_canceled_iff); and a stopped run whose
+   steps were cut short is never reported finished: a step reported finished did run to a successful end
+   (C04_finished_means_ran, unconditional since fix ac08004). *)
+Theorem C05_finished_means_ran : forall c : cfg, donech c = true -> norepeat c ->
+  forall s, Reach c s -> dry c = false ->
+  forall i, st (nd s i) = NSuccess -> exists fs, outs (nd s i) = true :: fs.
+Proof. exact finished_means_ran. Qed.
+Print Assumptions C05_finished_means_ran.
 
 (* Timeout (reading recorded in DESIGN.md section 6: a timed-out run is labelled failed): after the deadline no step
    command and no handler command starts; a command cut by the deadline is labelled canceled and the run gets an error. *)
@@ -117,7 +122,6 @@ Example C05_nonvacuous :
   (donech two_steps = true /\ norepeat two_steps) /\
   exists s1 s2 s3, run two_steps (init two_steps) stop2_pre = Some s1 /\
     step two_steps s1 HBegin = Some s2 /\ run two_steps s2 stop2_post = Some s3 /\
-    run_clean two_steps (init two_steps) (stop2_pre ++ HBegin :: stop2_post) = Some s3 /\
     pc s3 = LDone /\ dry two_steps = false /\ timedout s3 = false /\ canceled s3 = canceled s1 /\
     overall two_steps s1 = OCancel /\ hstarts stop2_post = [HCancel; HExit] /\
     map (fun i => st (nd s3 i)) [0; 1] = [NCancel; NCancel] /\ pc s1 = LExited.
